@@ -20,6 +20,13 @@
 //! receiver): UDP response ≤ max(512, advertised EDNS payload), TCP ≤ 65 535, exactly the bytes
 //! handed to the stream handle; the same well-formedness clauses are applied to those bytes, and
 //! the UDP answer is compared with the TCP answer to the same question (prefix / TC).
+//! Three producers sit behind that hook (all judged by `judge_pair`):
+//!   * `Catalog` over an `InMemoryZoneHandler` (never signs);
+//!   * `signed.rs`: a harness-owned `RequestHandler` that builds responses from the generated
+//!     zone's record sets with `MessageResponseBuilder` and calls `set_signature` with a TSIG
+//!     record on three cases out of four (+ a TC clause against the number of records it built);
+//!   * `tsigcat.rs`: `Catalog` over a `SqliteZoneHandler` with a TSIG key answering AXFR / UPDATE
+//!     requests the harness signed itself (`reftsig`) — the responses a deployed server signs.
 //!
 //! Don't-cares: a record dropped (or `Err`) although the unbounded encoding would fit — happens
 //! within a few octets of the full length because a name is written uncompressed before it is
@@ -28,11 +35,18 @@
 //! `emit_err/*`, not judged — in particular every limit below the end of the question section);
 //! which records are kept beyond "a prefix per section" (hickory goes on with the next section
 //! after a cut; later, smaller records of the *same* section are not tried); OPT dropped while
-//! TSIG still fits (counted `opt_dropped`); compression choices; the server's choice of records.
+//! TSIG still fits (counted `opt_dropped`); compression choices; the server's choice of records;
+//! the TSIG record of a signed response dropped when it does not fit after the cut (TC has to be
+//! set then; counted `*_udp_truncated_tsig_dropped` / `tsig_dropped`); whether the MAC of a
+//! truncated signed response still verifies (computed over the complete message; not C03's
+//! subject, never looked at).
 
 #[path = "../c02/wire.rs"]
 mod wire;
+#[path = "../c12/reftsig.rs"]
+mod reftsig;
 mod signed;
+mod tsigcat;
 
 use std::collections::BTreeMap;
 use std::net::{Ipv4Addr, SocketAddr};
@@ -703,6 +717,7 @@ fn main() {
                 server_case(&mut v, &rt, &server, zseed, &req, payload);
             }
             Some("server-signed") => signed::replay(&mut v, &rt, c),
+            Some("server-tsigcat") => tsigcat::replay(&mut v, &rt, c),
             _ => rep.inconclusive("replay: unknown case kind"),
         }
         rep.replay_finish();
@@ -722,6 +737,20 @@ fn main() {
     rep.must("server_udp_truncations", 100);
     rep.must("server_udp_complete", 50);
     rep.must("server_tcp_truncated", 1);
+    // responses with a TSIG record (signed.rs): signed UDP responses judged, of which truncated,
+    // of which with the TSIG record kept / dropped
+    rep.must("signed_udp_judged", 3_000);
+    rep.must("signed_udp_truncated", 2_000);
+    rep.must("signed_udp_truncated_tsig_kept", 400);
+    rep.must("signed_udp_truncated_tsig_dropped", 1_000);
+    rep.must("signed_udp_complete_with_tsig", 600);
+    rep.must("scripted_requests", 600);
+    // Catalog over a SqliteZoneHandler answering TSIG-signed AXFR / UPDATE (tsigcat.rs)
+    rep.must("tsigcat_axfr_udp_judged", 800);
+    rep.must("tsigcat_axfr_udp_truncated_tsig_kept", 100);
+    rep.must("tsigcat_axfr_udp_truncated_tsig_dropped", 400);
+    rep.must("tsigcat_axfr_udp_complete_with_tsig", 150);
+    rep.must("tsigcat_update_udp_judged", 60);
 
     let mut rng = ctx.rng("main");
     let mut v = Verdicts { rep: &mut rep };
@@ -772,7 +801,11 @@ fn main() {
     }
 
     // T: server path with a harness-owned handler whose responses carry a TSIG record (signed.rs)
-    signed::run(&mut v, &rt, &mut rng, ctx.budget(1_000, 20_000));
+    signed::run(&mut v, &rt, &mut rng, ctx.budget(6_000, 60_000));
+
+    // C: the realistic producer of signed responses — Catalog over a SqliteZoneHandler answering
+    // TSIG-signed AXFR / UPDATE requests (tsigcat.rs)
+    tsigcat::run(&mut v, &rt, &mut rng, ctx.budget(1_200, 12_000));
 
     // D2: generated messages biased to many / large records with shared suffixes, ± EDNS, ± TSIG
     let n_msgs = ctx.budget(10_000, 200_000);
